@@ -839,6 +839,7 @@ type recSession struct {
 	conn              *diskwriter.VerifConn
 	trks              []*recSessTrack
 	start             int64
+	startAt           time.Duration // simulated time at which the recording was started
 	stopBegin         int64
 	stopEnd           int64
 	stopKind          string
@@ -1235,7 +1236,7 @@ func (w *recWorld) record() {
 		w.client = cl
 	}
 	old := w.cur
-	s := &recSession{n: len(w.sessions), start: c.Stamp(), maxDelayUs: w.maxDelay}
+	s := &recSession{n: len(w.sessions), start: c.Stamp(), startAt: c.Run.Now(), maxDelayUs: w.maxDelay}
 	w.sessions = append(w.sessions, s)
 	if old != nil {
 		old.stopBegin = c.Stamp()
@@ -2026,7 +2027,24 @@ func (w *recWorld) judgeComplete(s *recSession, tag string) {
 					// to neither file for certain
 					if vt := w.trk[1]; vt != nil && vt.sp.ResAt > 0 && vt.sp.ResAt < len(vt.frames) {
 						kcap := w.t0sim + time.Duration(vt.frames[vt.sp.ResAt].CapUs)*time.Microsecond
-						slack := time.Duration(w.maxDelay)*time.Microsecond + 25*time.Millisecond + videoAge
+						age := videoAge
+						if s.replayed {
+							// joined mid-stream: the recorder takes the key frame
+							// replayed from the cache for captured on arrival; that
+							// key frame is at most as old as the newest key frame
+							// captured before the recording started
+							var newest time.Duration = -1
+							for _, vf := range vt.frames {
+								if cap := w.t0sim + time.Duration(vf.CapUs)*time.Microsecond; vf.Key && cap <= s.startAt && cap > newest {
+									newest = cap
+								}
+							}
+							if newest >= 0 && s.startAt-newest > age {
+								age = s.startAt - newest
+							}
+						}
+						slack := time.Duration(w.maxDelay)*time.Microsecond + 25*time.Millisecond + age
+						w.dbg("audio frame %d: capAt=%v kcap=%v slack=%v (maxDelay=%dus videoAge=%v videoL0=%v t0sim=%v)", f.Idx, capAt, kcap, slack, w.maxDelay, videoAge, videoL0, w.t0sim)
 						if capAt > kcap-slack && capAt < kcap+slack {
 							continue
 						}
